@@ -221,6 +221,36 @@ def recv_component(ctx, pfx):
     ctx.distinct.add(("recv-component", pfx))
 
 
+def reasm_component(ctx, pfx, replay=True):
+    """Reasm: exhaustive TLC on the bounded universe, behaviours replayed into the real
+    reassemblyQueue (several SSN/MID/TSN bases incl. wraps), real traces validated by TLC."""
+    binp = ctx.harness()
+    for il in ("TRUE", "FALSE"):
+        ctx.tlc_design("MC_Reasm", "MC_Reasm_%s_bfs%d.cfg" % (il, 8 if ctx.quick else 10), timeout=1500)
+        if replay:
+            path, nb = tlc_behaviours(ctx, "MC_Reasm", "MC_Reasm_%s_sim.cfg" % il, 48 if ctx.quick else 400, 18)
+            out = ctx.scr.mkdir("reasmreplay")
+            p = L.run_harness(binp, "reasm-replay", out, {"VF_IN": path, "VF_IL": "1" if il == "TRUE" else "0", "VF_SEED": ctx.seed,
+                                                          "VF_NBASES": 10 if ctx.quick else 24})
+            if p.returncode != 0:
+                raise L.MachineryError("reasm-replay failed: " + (p.stdout + p.stderr)[-2000:])
+            res = json.load(open(os.path.join(out, "reasm-replay-%s.json" % ("idata" if il == "TRUE" else "data"))))
+            ctx.replayed += res["ops"]
+            ctx.evaluations += res["ops"]
+            for m in res["mismatches"]:
+                ctx.add_violation(pfx + "_Reasm_" + m["field"], "reasm-replay %s base=%d" % ("idata" if il == "TRUE" else "data", m["base"]),
+                                  [m["op"], "idata" if il == "TRUE" else "data", "wrapbase" if m["base"] in (1, 2, 3, 6, 7) else "plainbase", m["step"]])
+            if len(ctx.samples) < 5:
+                ctx.samples.append({"reasm_behaviour": open(path).readline()[:500]})
+    out = ctx.scr.mkdir("reasmtrace")
+    ps = L.run_shards(binp, "reasm-trace", out, 4 if ctx.quick else 16, {"VF_N": 100 if ctx.quick else 2000, "VF_SEED": ctx.seed})
+    for p in ps:
+        if p.returncode != 0:
+            raise L.MachineryError("reasm-trace failed: " + (p.stdout + p.stderr)[-2000:])
+    ctx.validate(sorted(glob.glob(os.path.join(out, "reasm-*.ndjson"))), module="ReasmTrace", cfg="ReasmTrace.cfg", env={"VF_MONPFX": pfx})
+    ctx.distinct.add(("reasm-component", pfx))
+
+
 ALL_PROFILES = ["basic", "lossy", "reorder", "zwin", "pr", "wrap", "il", "tiny", "clean"]
 
 
@@ -240,6 +270,38 @@ def c05(ctx):
 @check("C06", ["C06_"])
 def c06(ctx):
     files = xfer_traces(ctx, ["pr", "pr", "lossy", "reorder", "il"], 160, 4000)
+    ctx.validate(files)
+
+
+@check("C11", ["C11_"])
+def c11(ctx):
+    reasm_component(ctx, "C11")
+    files = xfer_traces(ctx, ["zwin", "pr", "lossy", "reorder", "il", "basic"], 160, 4000)
+    ctx.validate(files)
+
+
+@check("C02", ["C02_"])
+def c02(ctx):
+    files = xfer_traces(ctx, ["zwin", "lossy", "reorder", "wrap", "basic", "il", "tiny", "zwin"], 200, 5000)
+    ctx.validate(files)
+
+
+@check("C07", ["C07_"])
+def c07(ctx):
+    reasm_component(ctx, "C07", replay=not ctx.quick)
+    files = xfer_traces(ctx, ["pr", "pr", "pr", "lossy", "il"], 200, 5000)
+    ctx.validate(files)
+
+
+@check("C15", ["C15_"])
+def c15(ctx):
+    files = xfer_traces(ctx, ["basic", "lossy", "pr", "zwin", "il", "reorder"], 160, 4000)
+    ctx.validate(files)
+
+
+@check("C19", ["C19_"])
+def c19(ctx):
+    files = xfer_traces(ctx, ["reorder", "lossy", "basic", "clean"], 160, 4000)
     ctx.validate(files)
 
 
